@@ -333,8 +333,8 @@ func genC29(g *Gen) {
 			ncol = 5 + g.Intn(8)
 		}
 		nrow := int(g.Pick(0, 1, 1, 2, 3, 5, 8, 17))
-		if g.Thorough() && g.Intn(50) == 0 {
-			nrow = 100 + g.Intn(2000)
+		if g.Thorough() && g.Intn(200) == 0 { // the list-based model reads rows in quadratic time
+			nrow = 100 + g.Intn(300)
 		}
 		epochPos := 0
 		mode := g.Intn(20)
